@@ -70,6 +70,9 @@ type Fx struct {
 	exitSuffix string
 	autoAnns   map[*LoopInfo]*LoopAnn
 	AutoLoops  map[string]int
+	exitBlk     *ssa.BasicBlock // split-returns: block of the return statement whose exit is being checked
+	exitLenient bool           // while elaborating exit clauses: undefined locals are arbitrary values
+	undefNames  map[string]Val
 	Variants   map[string]string // sweep mode: termination measure found per unannotated loop
 	curFrameVals map[ssa.Value]Val
 	keepDry    *[]*State
@@ -92,6 +95,7 @@ type retState struct {
 	St  *State
 	Res Val
 	Pos token.Pos
+	Blk *ssa.BasicBlock
 }
 
 type execErr struct{ msg string }
@@ -576,7 +580,7 @@ func (fx *Fx) doReturn(st *State, r *ssa.Return) {
 			res.L = append(res.L, fx.get(st, x).L...)
 		}
 	}
-	fx.Returns = append(fx.Returns, &retState{St: st, Res: res, Pos: r.Pos()})
+	fx.Returns = append(fx.Returns, &retState{St: st, Res: res, Pos: r.Pos(), Blk: r.Block()})
 }
 
 // ---------- instructions
